@@ -11,6 +11,10 @@ CHECKS = {
          "generated-input search over all collider kinds, poses and special directions against closed-form reference support functions; held on everything explored"),
  "C04": ("property-based testing (Hypothesis): AABB bounds vs closed-form support values along +-e_i; RigidBody vs world-frame vertex bounds; overlap consequence on constructed overlapping scenes",
          "generated-input search against a closed-form oracle that decides enclosure and tightness at once; one open known finding (ellipsoid_aabb)"),
+ "C07": ("property-based testing (Hypothesis): overlapping scenes, gjk -> epa protocol, vs exact qhull penetration depth (polytope pairs) and certified bounds (smooth pairs); both simplex windings",
+         "generated-input search with an exact oracle for polytopes; one open known finding (GJK hands over an incomplete simplex)"),
+ "C08": ("property-based testing (Hypothesis): overlapping scenes, mpr_penetration vs exact qhull penetration depth (polytopes) / ball-witness bounds, translation test, contact membership",
+         "generated-input search with lower-bound witnesses for every reported violation; three open known findings on the contact position"),
  "C09": ("property-based testing (Hypothesis): C01 scenes vs original GJK (points, consistency, optimality) and Nesterov variants (value); iteration helpers on fresh objects",
          "generated-input search against construction witnesses / certified reference GJK; two open known findings for use_nesterov_acceleration=True"),
  "C14": ("model-based testing: Hypothesis-generated update_pose/query histories vs a freshly constructed collider at the last pose",
